@@ -83,6 +83,19 @@ inductive TTok
   | unknownException
   deriving DecidableEq, Repr
 
+/-- what the printing functions of mock.hpp do, in order: insertions of string literals (made *without* a sentry),
+    the construction of a `stream_sentry` (which lives to the end of the function), recursive `print` calls on a
+    component, and the leaf actions. -/
+inductive PrTok
+  | lit (s : String)          -- `os << "…"` / `os << sep`
+  | sentry                    -- `stream_sentry s(os);`
+  | printSub (i : Nat)        -- `::trompeloeil::print(os, <component i>)`
+  | streamValue               -- `os << t`   (the value's own operator<<)
+  | hexdump                   -- `hexdump(&t, sizeof(T), os)`
+  | toPrinter                 -- `printer<T>::print(os, t)`
+  | toStreamer                -- `streamer<T>::print(os, t)`
+  deriving DecidableEq, Repr
+
 /-- what `hexdump` inserts into the stream, manipulators included. -/
 inductive HTok
   | sentry                 -- `stream_sentry s(os)`
